@@ -452,7 +452,15 @@ class Fn:
             a, b = kids(n)
             if op in ("&&", "||"):
                 if self.effectful(b):
-                    raise Untranslatable("state-changing call on the right of %s outside a condition" % op)
+                    # short-circuit with a state-changing right operand, used as a value: evaluated in C++ order
+                    # into a fresh boolean, together with everything the operands may rebind
+                    names = self.rebound(n, env)
+                    def tup(v):
+                        parts = ([] if self.free else ["s"]) + [env[x][0] for x in names] + [v]
+                        return parts[0] if len(parts) == 1 else "(" + ", ".join(parts) + ")"
+                    code = self.cond(n, env, lambda: tup("true"), lambda: tup("false"))
+                    t = self.ctx.fresh()
+                    return ["let %s :=\n%s" % (tup(t), ind(code))], t, "bool"
                 pa, ca, ta = self.ex(a, env)
                 pb, cb, tb = self.ex(b, env)
                 return pa + pb, "(%s %s %s)" % (self.as_bool(ca, ta), op, self.as_bool(cb, tb)), "bool"
@@ -471,7 +479,23 @@ class Fn:
         if k == "CXXOperatorCallExpr":
             ks = kids(n)
             opn = strip(ks[0]).get("referencedDecl", {}).get("name", "")
+            if opn in ("operator!=", "operator==") and len(ks) == 3:
+                l0, r0 = strip(ks[1]), strip(ks[2])
+                for a0, b0 in ((l0, r0), (r0, l0)):
+                    vn = a0.get("referencedDecl", {}).get("name")
+                    if vn in env and env[vn][1] == "iter" and env[vn][0][0] == "find":
+                        _, cm, ck = env[vn][0]
+                        isend = b0.get("kind") == "CXXMemberCallExpr" and strip(kids(b0)[0]).get("name") in ("constEnd", "end", "cend") \
+                            and self.ex(kids(strip(kids(b0)[0]))[0], env)[1] == cm
+                        vb = b0.get("referencedDecl", {}).get("name")
+                        isend = isend or (vb in env and env[vb][1] == "iter" and env[vb][0] == ("end", cm))
+                        if isend:
+                            c = "(HeaderMap.contains %s %s)" % (ck, cm)
+                            return [], c if opn == "operator!=" else "(!%s)" % c, "bool"
             if opn in ("operator*", "operator->") and len(ks) == 2:
+                vn = strip(ks[1]).get("referencedDecl", {}).get("name")
+                if vn in env and env[vn][1] == "iter" and env[vn][0][0] == "find":
+                    return [], "(HeaderMap.value %s %s)" % (env[vn][0][2], env[vn][0][1]), "bytes"
                 vn = strip(ks[1]).get("referencedDecl", {}).get("name")
                 if vn in env and env[vn][1] == "iterelem":
                     return [], env[vn][0], "bytes"
@@ -530,6 +554,43 @@ class Fn:
             if ta == tb == "bool" and op in ("==", "!="):
                 return "(%s %s %s)" % (ca, "==" if op == "==" else "!=", cb), "bool"
         raise Untranslatable("operator %s on %s, %s" % (op, ta, tb))
+
+    def rebound(self, n, env):
+        """locals that evaluating n may rebind (arguments for reference parameters, lists a takeFirst() is applied to)"""
+        out = []
+        def add(a):
+            a0 = strip(a)
+            vn = a0.get("referencedDecl", {}).get("name")
+            if a0.get("kind") == "DeclRefExpr" and vn in env and vn not in out and isinstance(env[vn][0], str) and re.match(r"^[A-Za-z_][A-Za-z0-9_']*$", env[vn][0]):
+                out.append(vn)
+        def walk(x):
+            x0 = strip(x)
+            if x0.get("kind") == "CallExpr":
+                rd = strip(kids(x0)[0]).get("referencedDecl", {})
+                nm = rd.get("name")
+                key = None
+                for c in PURE_CLASSES:
+                    if c + "::" + str(nm) in self.ctx.decls:
+                        key = c + "::" + nm
+                if key is None and "::" + str(nm) in self.ctx.decls:
+                    key = "::" + nm
+                if key is not None:
+                    ps = self.ctx.sig(key)[0]
+                    real = [y for y in kids(x0)[1:] if y.get("kind") != "CXXDefaultArgExpr"]
+                    for an, pinfo in zip(real, ps):
+                        if pinfo[0] in self.ctx.inout.get(key, []):
+                            add(an)
+                if nm == "parseResponseHeaders":
+                    for an in kids(x0)[2:]:
+                        add(an)
+            if x0.get("kind") == "CXXMemberCallExpr":
+                callee = strip(kids(x0)[0])
+                if callee.get("name") in ("takeFirst", "removeFirst", "takeLast", "append", "insert", "remove", "clear", "truncate") and kids(callee):
+                    add(kids(callee)[0])
+            for c in kids(x0):
+                walk(c)
+        walk(n)
+        return sorted(out)
 
     def effectful(self, n):
         """does evaluating n change (or depend on the order of changes to) the state?"""
@@ -683,6 +744,11 @@ class Fn:
             if chain:
                 self.uses_env = True
                 return chain[0], "(env.errPage %s %s)" % (chain[1], chain[2]), "bytes"
+        o0 = strip(objn)
+        vn0 = o0.get("referencedDecl", {}).get("name") if o0.get("kind") == "DeclRefExpr" else None
+        if vn0 in env and env[vn0][1] == "iter" and env[vn0][0][0] == "find" and not [x for x in argn if x.get("kind") != "CXXDefaultArgExpr"]:
+            if nm == "value":
+                return [], "(HeaderMap.value %s %s)" % (env[vn0][0][2], env[vn0][0][1]), "bytes"
         # value classes
         pre0, oc, ot = self.ex(objn, env)
         real = [x for x in argn if x.get("kind") != "CXXDefaultArgExpr"]
@@ -901,7 +967,15 @@ class Fn:
                             which = "begin" if "egin" in strip(kids(b0)[0])["name"] else "end"
                             env[nm] = ((which, cm), "iter")
                             continue
-                    raise Untranslatable("iterator %s that is not begin()/end() of a header map" % nm)
+                    if b0.get("kind") == "CXXMemberCallExpr" and strip(kids(b0)[0]).get("name") in ("constFind", "find"):
+                        pm, cm, tm = self.ex(kids(strip(kids(b0)[0]))[0], env)
+                        real0 = [x for x in kids(b0)[1:] if x.get("kind") != "CXXDefaultArgExpr"]
+                        if tm == "hmap" and not pm and len(real0) == 1:
+                            pk, ck, tk = self.ex(real0[0], env)
+                            if tk == "bytes" and not pk:
+                                env[nm] = (("find", cm, ck), "iter")
+                                continue
+                    raise Untranslatable("iterator %s that is not begin()/end()/find() of a header map" % nm)
                 if t not in ("int", "bool", "bytes", "blist", "hmap"):
                     raise Untranslatable("local %s of type %s" % (nm, qt(v)))
                 if not init or (strip(init[0]).get("kind") in ("CXXConstructExpr", "CXXTemporaryObjectExpr") and not [c for c in kids(strip(init[0])) if c.get("kind") != "CXXDefaultArgExpr"]):
